@@ -8,7 +8,7 @@ from vf.props import _single as S
 ID = "C04"
 LEVEL = "exploration"
 SHARDS = {"quick": 1, "thorough": 16}
-N_QUICK, N_THOROUGH = 350, 2000
+N_QUICK, N_THOROUGH = 350, 800
 RULE = ("case = (generated inheritance DAG of 2..6 classes over DBC/DBCMeta, each class with 1..2 earlier classes as "
         "bases; one member of a drawn kind (method, static, class, property get/set/del, sync/async) per hierarchy; per "
         "class the member is {not defined, redefined without preconditions, redefined with own preconditions} with "
@@ -26,6 +26,9 @@ DECO_KW = dict(n_pre=(0, 2), n_post=(0, 2), n_snap=(0, 1), n_wraps=(0, 1), err_f
 HIER_KW = dict(n_classes=(2, 6), dag=True, with_invs=True, with_init=True, multi_root=True)
 KNOWN = {
     "D14": lambda bucket, case: bucket.startswith("unconstrained-base|"),
+    # a verdict mismatch in a program where a class introducing invariants re-defines inherited members on itself and
+    # a multi-base class picks that copy up instead of another base's override
+    "D24": lambda bucket, case: ("verdict" in bucket) and "program" in case and D.d24_shape(case["program"]),
 }
 
 
